@@ -40,7 +40,7 @@ type NetflowV5 struct {
 	port    int
 	addr    string
 	workers int
-	stop    bool
+	stop    uint32
 	stats   NetflowV5Stats
 	pool    chan chan struct{}
 }
@@ -136,7 +136,7 @@ func (i *NetflowV5) run() {
 		i.dynWorkers()
 	}()
 
-	for !i.stop {
+	for atomic.LoadUint32(&i.stop) == 0 {
 		b := netflowV5Buffer.Get().([]byte)
 		conn.SetReadDeadline(time.Now().Add(1e9))
 		n, raddr, err := conn.ReadFromUDP(b)
@@ -160,7 +160,7 @@ func (i *NetflowV5) shutdown() {
 	}
 
 	// stop reading from UDP listener
-	i.stop = true
+	atomic.StoreUint32(&i.stop, 1)
 	logger.Println("stopping netflow v5 service gracefully ...")
 	time.Sleep(1 * time.Second)
 
